@@ -15,6 +15,7 @@ import (
 
 const (
 	pkgBastion     = "github.com/transparency-dev/witness/internal/feeder/bastion"
+	pkgOmni        = "github.com/transparency-dev/witness/omniwitness"
 	pkgHTTP        = "github.com/transparency-dev/witness/internal/http"
 	pkgClientHTTP  = "github.com/transparency-dev/witness/client/http"
 	pkgRest        = "github.com/transparency-dev/witness/internal/distribute/rest"
@@ -130,6 +131,11 @@ func init() {
 		{Harness: pkgHTTP + ".VerifReadAPI", Quick: p("logs", 2, "signers", 1, "maxproof", 1, "store", 0), Thorough: p("logs", 3, "signers", 2, "maxproof", 2, "store", 0), Covers: []string{"http/found", "http/unknown-id", "http/known-id-nothing-stored", "http/first-accept-adds-entry", "http/refused-first-submission"}},
 		{Harness: pkgHTTP + ".VerifReadAPI", Quick: p("logs", 2, "signers", 1, "maxproof", 1, "store", 1), Thorough: p("logs", 3, "signers", 2, "maxproof", 2, "store", 1), Covers: []string{"http/found", "http/unknown-id", "http/known-id-nothing-stored", "http/first-accept-adds-entry", "http/refused-first-submission"}},
 		{Harness: pkgClientHTTP + ".VerifClientGet", Domain: sym.DomString, Solver: sym.CVC5, Quick: p(), Thorough: p(), Covers: []string{"client/200", "client/404", "client/other"}},
+	}})
+	bastCovers := []string{"bast/429", "bast/400-malformed", "bast/404", "bast/403", "bast/400-oldsize", "bast/409-stale", "bast/409-root", "bast/422", "bast/200"}
+	reg(&checkSpec{ID: "C10", Assumptions: append([]string{"parseBody is replaced by its contract (decided in C11); rate.Limiter.Allow is an arbitrary boolean; the TLS 1.3 + HTTP/2 reverse connection (connectAndServe) is outside the claim", "formats/note.NewVerifier and formats/log.ID are uninterpreted functions of the key text / origin"}, commonAssumptions...), Runs: []runSpec{
+		{Harness: pkgOmni + ".VerifBastion", Quick: p("logs", 2, "maxproof", 1, "store", 0), Thorough: p("logs", 3, "maxproof", 2, "store", 0), Covers: bastCovers},
+		{Harness: pkgOmni + ".VerifBastion", Quick: p("logs", 1, "maxproof", 1, "store", 1), Thorough: p("logs", 2, "maxproof", 2, "store", 1), Covers: bastCovers},
 	}})
 	reg(&checkSpec{ID: "vc", Runs: vcRuns(), Assumptions: commonAssumptions})
 	reg(&checkSpec{ID: "litmus", Runs: []runSpec{
